@@ -143,6 +143,27 @@ fn live_damage_rest(n: u64) -> (u64, Option<Value>) {
     (n, None)
 }
 
+/// head-addressed open (new_until) of a damaged store: an error, or exactly the undamaged result
+fn check_until(damaged: &RawStore, heads: &std::collections::BTreeSet<String>, want: &Value) -> Result<&'static str, Value> {
+    set_trace("C10 new_until(damaged)");
+    let st = crate::adapter::Store::from_map(damaged.clone());
+    let ids = to_delta_ids(heads);
+    let ad = st.adapter();
+    match crate::guard::call("new_until", move || melda::melda::Melda::new_until(ad, &ids)) {
+        Err(p) => Err(json!({"error": "new_until panicked", "panic": p})),
+        Ok(Err(_)) => Ok("error-reported"),
+        Ok(Ok(m)) => {
+            let v = view(&m);
+            let g = block_graph(&m);
+            let got = json!({"view": v, "graph_infos": g.as_object().map(|o| o.iter().map(|(k, d)| (k.clone(), d["info"].clone())).collect::<serde_json::Map<String, Value>>())});
+            if &got != want {
+                return Err(json!({"error": "time-travel open of a damaged storage exposes a state that differs from the undamaged one", "got": got, "undamaged": want}));
+            }
+            Ok("undamaged-state")
+        }
+    }
+}
+
 fn junk_menu(store: &RawStore) -> Vec<(String, Vec<u8>, &'static str)> {
     let mut v: Vec<(String, Vec<u8>, &'static str)> = vec![];
     let zeros = "0".repeat(64);
@@ -248,6 +269,52 @@ pub fn run(thorough: bool) {
                 } else { None };
                 jobs.push((format!("truncate {} to {}", k, len), d, refresh, "truncate".into()));
             }
+        }
+        // head-addressed opens: every flip / truncation / digit substitution of every item
+        {
+            let (m0, _s0) = match fresh_on(store, "C10 undamaged") { Ok(x) => x, Err(_) => continue };
+            let heads = anchors_of(&m0);
+            let want = {
+                let st = crate::adapter::Store::from_map(store.clone());
+                let ids = to_delta_ids(&heads);
+                let m = melda::melda::Melda::new_until(st.adapter(), &ids).expect("undamaged new_until");
+                let g = block_graph(&m);
+                json!({"view": view(&m), "graph_infos": g.as_object().map(|o| o.iter().map(|(k, d)| (k.clone(), d["info"].clone())).collect::<serde_json::Map<String, Value>>())})
+            };
+            let mut ujobs: Vec<(String, RawStore)> = vec![];
+            for k in &keys {
+                let b = &store[k];
+                for bit in (0..b.len() * 8).step_by(if thorough { 1 } else { 2 }) {
+                    let mut nb = b.clone();
+                    nb[bit / 8] ^= 1 << (bit % 8);
+                    let mut d = store.clone();
+                    d.insert(k.clone(), nb);
+                    ujobs.push((format!("bitflip {} bit {} then new_until(heads)", k, bit), d));
+                }
+                for (i, c) in b.iter().enumerate() {
+                    if c.is_ascii_alphanumeric() {
+                        let mut nb = b.clone();
+                        nb[i] = match *c { b'9' => b'0', b'z' => b'a', b'Z' => b'A', c => c + 1 };
+                        let mut d = store.clone();
+                        d.insert(k.clone(), nb);
+                        ujobs.push((format!("character at {} of {} replaced then new_until(heads)", i, k), d));
+                    }
+                }
+            }
+            ujobs.par_iter().for_each(|(desc, damaged)| {
+                evals.fetch_add(1, Ordering::Relaxed);
+                match check_until(damaged, &heads, &want) {
+                    Ok(o) => *outcomes.lock().unwrap().entry(format!("until:{}", o)).or_insert(0) += 1,
+                    Err(mut d) => {
+                        d["damage"] = json!(desc);
+                        d["input"] = json!({"history_of_store": hist});
+                        let mut b = bad.lock().unwrap();
+                        if b.iter().filter(|(c, _)| c == "time-travel-open-exposes-altered-content").count() < 1 {
+                            b.push(("time-travel-open-exposes-altered-content".to_string(), d));
+                        }
+                    }
+                }
+            });
         }
         let n = keys.len();
         if n <= 12 {
